@@ -210,3 +210,160 @@ def same_terms(F, ob, name, snap, a):
         return
     ob.eq(name, np.asarray(a, dtype=object if F.sym else float).ravel(),
           np.array(els, dtype=object if F.sym else float))
+
+
+# ---------------------------------------------------------------- shapes, images, digests
+SHAPES = ["PointCloud", "TriMesh", "ColouredTriMesh", "TexturedTriMesh", "PointUndirectedGraph",
+          "PointDirectedGraph", "PointTree", "LabelledPointUndirectedGraph"]
+
+
+def mk_shape(F, cls, tag, n, npts=4, landmarks=0):
+    """a shape of class `cls` with concrete structure and symbolic coordinates (n-D)"""
+    from collections import OrderedDict
+
+    import menpo.shape as ms
+    from menpo.image import Image
+
+    pts = F.reals(tag, (npts, n))
+    tl = np.array([[0, 1, 2], [1, 3, 2]][: max(1, npts - 2)])
+    und = np.array([[0, 1], [1, 2], [2, 0]] + ([[2, 3]] if npts > 3 else []))
+    if cls == "PointCloud":
+        s = ms.PointCloud(pts, copy=False)
+    elif cls == "TriMesh":
+        s = ms.TriMesh(pts, trilist=tl, copy=False)
+    elif cls == "ColouredTriMesh":
+        s = ms.ColouredTriMesh(pts, trilist=tl, colours=F.reals(tag + "_col", (npts, 3), 0, 1), copy=False)
+    elif cls == "TexturedTriMesh":
+        tex = Image(F.reals(tag + "_tex", (1, 2, 2), 0, 1), copy=False)
+        s = ms.TexturedTriMesh(pts, F.reals(tag + "_tc", (npts, 2), 0, 1), tex, trilist=tl, copy=False)
+    elif cls == "PointUndirectedGraph":
+        s = ms.PointUndirectedGraph.init_from_edges(pts, und, copy=False)
+    elif cls == "PointDirectedGraph":
+        s = ms.PointDirectedGraph.init_from_edges(pts, np.array([[0, 1], [1, 2], [2, 0], [0, 2]]), copy=False)
+    elif cls == "PointTree":
+        s = ms.PointTree.init_from_edges(pts, np.array([[1, 0], [1, 2]] + ([[2, 3]] if npts > 3 else [])), 1, copy=False)
+    elif cls == "LabelledPointUndirectedGraph":
+        m1 = np.zeros(npts, dtype=bool)
+        m1[:2] = True
+        m2 = np.ones(npts, dtype=bool)
+        m2[0] = False
+        s = ms.LabelledPointUndirectedGraph.init_from_edges(pts, und, OrderedDict([("zeta", m1), ("alpha", m2)]), copy=False)
+    else:
+        raise KeyError(cls)
+    lm_classes = ["PointCloud", "LabelledPointUndirectedGraph", "PointUndirectedGraph"]
+    for i in range(landmarks):
+        s.landmarks["g%d" % i] = mk_shape(F, lm_classes[i % 3], "%s_lm%d" % (tag, i), n, npts=3)
+    return s
+
+
+def mk_image(F, cls, tag, shape=(2, 3), channels=1, mask=None, landmarks=0):
+    """an image with symbolic pixels (BooleanImage: concrete pattern), optional concrete mask and landmark groups"""
+    from menpo.image import BooleanImage, Image, MaskedImage
+
+    if cls == "BooleanImage":
+        pat = (np.arange(int(np.prod(shape))).reshape(shape) % 3) != 0
+        img = BooleanImage(pat)
+    else:
+        px = F.reals(tag + "_px", (channels,) + tuple(shape), 0, 1)
+        if cls == "Image":
+            img = Image(px, copy=False)
+        else:
+            m = np.ones(shape, dtype=bool) if mask is None else np.asarray(mask, dtype=bool)
+            img = MaskedImage(px, mask=m, copy=False)
+    for i in range(landmarks):
+        img.landmarks["g%d" % i] = mk_shape(F, ["PointCloud", "LabelledPointUndirectedGraph"][i % 2],
+                                            "%s_lm%d" % (tag, i), len(shape), npts=3)
+    return img
+
+
+def digest(o, prefix=""):
+    """complete observable state as a list of (name, value); values are arrays (compared termwise) or
+    plain python objects (compared with ==)"""
+    import scipy.sparse as sp
+
+    import menpo.shape as ms
+    from menpo.image import BooleanImage, Image, MaskedImage
+    from menpo.landmark import LandmarkManager
+    from menpo.transform import Homogeneous, ThinPlateSplines, TransformChain
+    from menpo.transform.base import Alignment
+    from menpo.transform.piecewiseaffine.base import AbstractPWA
+
+    out = [(prefix + "type", type(o).__name__)]
+    if isinstance(o, LandmarkManager):
+        out.append((prefix + "groups", list(o.keys())))
+        for k in o.keys():
+            out += digest(o[k], prefix + "lm[%s]." % k)
+        return out
+    if isinstance(o, ms.PointCloud):
+        out.append((prefix + "points", o.points))
+        if isinstance(o, ms.TriMesh):
+            out.append((prefix + "trilist", np.asarray(o.trilist)))
+        if isinstance(o, ms.ColouredTriMesh):
+            out.append((prefix + "colours", o.colours))
+        if isinstance(o, ms.TexturedTriMesh):
+            out.append((prefix + "tcoords", o.tcoords.points))
+            out += digest(o.texture, prefix + "texture.")
+        if hasattr(o, "adjacency_matrix"):
+            a = o.adjacency_matrix
+            out.append((prefix + "adjacency", np.asarray(a.todense()) if sp.issparse(a) else np.asarray(a)))
+        if isinstance(o, ms.PointTree):
+            out.append((prefix + "root", int(o.root_vertex)))
+        if isinstance(o, ms.LabelledPointUndirectedGraph):
+            out.append((prefix + "labels", list(o.labels)))
+            for l in o.labels:
+                out.append((prefix + "mask[%s]" % l, np.asarray(o._labels_to_masks[l])))
+    elif isinstance(o, Image):
+        out.append((prefix + "pixels", o.pixels))
+        if isinstance(o, MaskedImage):
+            out.append((prefix + "mask", o.mask.pixels))
+    elif isinstance(o, Homogeneous):
+        out.append((prefix + "h_matrix", o.h_matrix))
+    elif isinstance(o, TransformChain):
+        for i, t in enumerate(o.transforms):
+            out += digest(t, prefix + "chain[%d]." % i)
+    if isinstance(o, AbstractPWA):
+        out += [(prefix + "ti", o.ti), (prefix + "tij", o.tij), (prefix + "tik", o.tik)]
+    if isinstance(o, ThinPlateSplines):
+        out += [(prefix + "coefficients", o.coefficients)]
+    if isinstance(o, Alignment):
+        out += digest(o.source, prefix + "source.")
+        out += digest(o.target, prefix + "target.")
+    if getattr(o, "_landmarks", None) is not None and not isinstance(o, LandmarkManager):
+        if o._landmarks.n_groups:
+            out += digest(o._landmarks, prefix + "landmarks.")
+    return out
+
+
+def freeze(d):
+    """snapshot of a digest (element lists), immune to later in-place edits"""
+    out = []
+    for k, v in d:
+        if isinstance(v, np.ndarray):
+            out.append((k, snapshot(v)))
+        else:
+            out.append((k, v))
+    return out
+
+
+def eq_digest(F, ob, name, got, want, tol=None):
+    """`got` is a live digest, `want` a live or frozen digest"""
+    gk = [k for k, _ in got]
+    wk = [k for k, _ in want]
+    ob.true(name + ".keys", gk == wk)
+    if gk != wk:
+        return
+    for (k, g), (_, w) in zip(got, want):
+        if isinstance(w, tuple) and len(w) == 2 and isinstance(w[0], list):  # frozen array
+            els, shp = w
+            if np.shape(g) != shp:
+                ob.fail("%s.%s.shape" % (name, k), "%s vs %s" % (np.shape(g), shp))
+                continue
+            w = np.array(els, dtype=object if F.sym else None).reshape(shp) if els else np.zeros(shp)
+        if isinstance(g, np.ndarray) or isinstance(w, np.ndarray):
+            g, w = np.asarray(g), np.asarray(w)
+            if g.dtype == bool and w.dtype == bool or (g.dtype.kind in "iu" and w.dtype.kind in "iu"):
+                ob.true("%s.%s" % (name, k), g.shape == w.shape and bool(np.array_equal(g, w)))
+            else:
+                ob.eq("%s.%s" % (name, k), g, w, tol=tol)
+        else:
+            ob.true("%s.%s" % (name, k), g == w)
